@@ -207,6 +207,33 @@ type History struct {
 	Wedged bool
 }
 
+// CompleteBlocks is the number of blocks covered by complete items from the start of the drive.
+func CompleteBlocks(drive string) int64 {
+	its, _, _ := ScanTape(drive, 0)
+	fi, err := os.Stat(drive)
+	if err != nil {
+		return 0
+	}
+	blocks := int64(0)
+	for _, it := range its {
+		if it.HB < 0 {
+			break
+		}
+		nb := it.HB + it.DataBlocks
+		if it.Trailer {
+			nb = 2
+			if it.HB == 1 {
+				break
+			}
+		}
+		if (it.Block+nb)*512 > fi.Size() {
+			break
+		}
+		blocks = it.Block + nb
+	}
+	return blocks
+}
+
 // RunHistory executes calls on a fresh instance in dir, observing after every call.
 // after(step index, session) is called after each call's observation (may be nil).
 func RunHistory(dir string, c Cfg, id string, next func() (Call, bool), wantTree bool, after func(i int, s *Session, st *Step)) (*History, error) {
@@ -247,6 +274,11 @@ func RunHistoryB(dir string, c Cfg, id string, next func() (Call, bool), wantTre
 				st.Directive = true
 				hist.Steps = append(hist.Steps, st)
 				continue
+			case "@cuttape":
+				// a crash: the drive keeps only its first c bytes
+				c, _ := strconv.ParseInt(call.Args[0], 10, 64)
+				os.Truncate(e.Drive, c)
+				prevBlocks = 0
 			case "@snapshot":
 				e.Close()
 				snapshot, _ = os.ReadFile(e.DBPath)
@@ -292,8 +324,16 @@ func RunHistoryB(dir string, c Cfg, id string, next func() (Call, bool), wantTre
 				return nil, err
 			}
 			st.Obs = append(st.Obs, rows...)
-			_, blocks, _ := ScanTape(e.Drive, prevBlocks)
+			// only whole items count for the model; a torn tail is not an item
+			blocks := CompleteBlocks(e.Drive)
+			if call.Method == "@cuttape" {
+				prevBlocks = blocks
+			}
 			st.Obs = append(st.Obs, e.RootLine(), fmt.Sprintf("blocks\t%d", blocks))
+			st.Directive = true
+			if after != nil {
+				s.Guard(func() { after(i, s, &st) })
+			}
 			hist.Steps = append(hist.Steps, st)
 			continue
 		}
@@ -312,6 +352,22 @@ func RunHistoryB(dir string, c Cfg, id string, next func() (Call, bool), wantTre
 			items, blocks, err = ScanTape(e.Drive, prevBlocks)
 			if err != nil {
 				return nil, err
+			}
+			// a torn tail (after a simulated crash) is not an item: keep the complete ones only
+			if cb := CompleteBlocks(e.Drive); cb < blocks {
+				keep := items[:0:0]
+				for _, it := range items {
+					nb := it.HB + it.DataBlocks
+					if it.Trailer {
+						nb = 2
+					}
+					if it.HB < 0 || (it.Trailer && it.HB == 1) || it.Block+nb > cb {
+						break
+					}
+					keep = append(keep, it)
+				}
+				items = keep
+				blocks = cb
 			}
 		}
 		st.Env = EnvLine(items)
@@ -343,6 +399,18 @@ func RunHistoryB(dir string, c Cfg, id string, next func() (Call, bool), wantTre
 		if after != nil && !s.Wedged {
 			s.Guard(func() { after(i, s, &st) })
 		}
+		if !s.Wedged {
+			// the observation walks above went through the public API and filled the persister's
+			// root cache as a side effect: put back what the call under test left there
+			if len(st.Obs) >= 2 {
+				for _, l := range st.Obs {
+					if strings.HasPrefix(l, "root\t") {
+						f := strings.Split(l, "\t")
+						e.SetRootCache(DecName(f[1]), f[2] == "1")
+					}
+				}
+			}
+		}
 		st.LateWedge = s.Wedged && st.Res != "stuck"
 		hist.Steps = append(hist.Steps, st)
 		if s.Wedged {
@@ -369,6 +437,7 @@ func DriverInput(hs []*History) []byte {
 
 // ModelStep is the model's output for one call.
 type ModelStep struct {
+	Unmodelled bool
 	Obs    []string
 	RefRes string
 	Tree   []string
@@ -402,6 +471,8 @@ func RunDriver(driver string, hs []*History) (map[string][]ModelStep, error) {
 				ms = nil
 			}
 		case ms == nil:
+		case line == "unmodelled":
+			ms.Unmodelled = true
 		case strings.HasPrefix(line, "refres\t"):
 			ms.RefRes = strings.TrimPrefix(line, "refres\t")
 		case strings.HasPrefix(line, "tree\t"):
@@ -451,6 +522,9 @@ func CompareCorr(h *History, m []ModelStep) *Mismatch {
 	for i, st := range h.Steps {
 		if i >= len(m) {
 			return &Mismatch{Hist: h.ID, Step: i, Kind: "corr-missing", Calls: calls(i)}
+		}
+		if m[i].Unmodelled {
+			return nil // the model has given up on the rest of this history (stated region)
 		}
 		impl := st.Obs
 		model := m[i].Obs
